@@ -1475,7 +1475,7 @@ def do_reverse(value: str | t.Iterable[V]) -> str | t.Iterable[V]:
 async def async_do_reverse(
     value: "str | t.AsyncIterable[V] | t.Iterable[V]",
 ) -> "str | t.Iterable[V]":
-    if hasattr(value, "__aiter__"):
+    if hasattr(type(value), "__aiter__"):
         # Like the fallback of the sync variant for iterables that cannot be
         # reversed in place: collect, then reverse the list.
         rv = await auto_to_list(value)
